@@ -157,6 +157,10 @@ var headerRe = regexp.MustCompile(`(?m)^goroutine (\d+) \[([^\]]+)\]:`)
 func quiet(self int64) bool {
 	buf := make([]byte, 4<<20)
 	n := runtime.Stack(buf, true)
+	for n == len(buf) { // the dump must be complete: a goroutine missing from it would count as gone
+		buf = make([]byte, 2*len(buf))
+		n = runtime.Stack(buf, true)
+	}
 	for _, block := range strings.Split(string(buf[:n]), "\n\n") {
 		m := headerRe.FindStringSubmatch(block)
 		if m == nil {
